@@ -239,10 +239,40 @@ def stepOpP (d : DS) (w : List String) : Option DS :=
   | ["refetch"] => (stepOp s w).map fun s' => { d with s := s', missed := d.paused }
   | _ => (stepOp s w).map fun s' => { d with s := s' }
 
+/-- cfg kind `k!n` / `k!!n`: the derived's function writes its own source (to `n`, while it is below `n`) during its
+first synchronous run.  From the model's point of view that is the history "create, then `set` before the first
+poll" (`!`: the initial future is pending); with an initial future that is ready at once (`!!`: the constructor stores
+its value, loading is off, the task has been spawned and never polled) it is "first load done, task woken, then `set`". -/
+def parseSelfWrite (kind : String) : Option (String × Option (Nat × Bool)) :=
+  match kind.splitOn "!" with
+  | [k] => some (k, none)
+  | [k, n] => n.toNat?.map fun n => (k, some (n, false))
+  | [k, "", n] => n.toNat?.map fun n => (k, some (n, true))
+  | _ => none
+
+def selfWriteInit (c : Cfg) (n : Nat) (instant : Bool) : State :=
+  let s0 := init c
+  let v := s0.src.headD 0
+  if instant then
+    let s := step (step (step s0 (.poll 0)) (.complete 0)) (.poll 0)
+    let s := { s with dWoken := true, reg := false }
+    if v < n then step s (.set 0 n) else s
+  else if v < n then step s0 (.set 0 n) else s0
+
 def stepLine (d : Option DS) (line : String) : Option DS × String :=
   match words line with
   | ["case", n] => (none, s!"case {n}")
-  | "cfg" :: rest =>
+  | "cfg" :: kind0 :: rest0 =>
+    let rest := kind0 :: rest0
+    match parseSelfWrite kind0 with
+    | none => (d, "bad-op")
+    | some (k, some (n, instant)) =>
+      if d.isSome || !(kinds.contains k) || rest0.length != 3 || rest0[1]? != some "-" || rest0[2]? != some "none"
+          || (rest0[0]? |>.map (·.contains ',')) != some false then (d, "bad-op")
+      else match parseCfg (k :: rest0) with
+        | some c => (some { s := selfWriteInit c n instant }, " ".intercalate ("cfg" :: rest))
+        | none => (d, "bad-op")
+    | some (_, none) =>
     match d, parseCfg rest with
     | none, some c =>
       let peek := rest[3]? == some "dp" || rest[3]? == some "dq"
